@@ -8,7 +8,9 @@
    One family of inputs is excluded by a NAMED predicate and refuted without the exclusion (known finding):
      * script codes with an undecodable instruction (`core_decodable script = false`): pycoin's walk goes on behind the
        bad instruction; exact condition for FindAndDelete: `rewalk_excluded` (C04_find_and_delete_exact).
-       No successful script evaluation can contain such a script, in Core or in pycoin.
+       No successful script evaluation can contain such a script, in Core or in pycoin.  The refuting witness
+       (ac 05 00 ab: pycoin strips the trailing ab, Core does not look behind the truncated push) does not depend on
+       how Core's serializer treats the bytes of the bad instruction itself.
    (The second family of the first version of this file — one-byte signature blobs, whose MINIMAL push pycoin removed —
    is gone: since /repo commit 2ba5b6d _delete_signature removes the plain push, which is Core's CScript() << sig.)
    "Computing a hash never modifies the transaction" is not a theorem (a pure model cannot alias): direct check only. *)
